@@ -250,6 +250,36 @@ func fieldOfChan(ch ssa.Value) string {
 		}
 		return f0
 	}
+	// a local alias of a channel that is also kept in a struct field (batchC := make(...); out := &batchStream{batchC: batchC};
+	// the goroutines use a directional alias of the local): the channel is the one the field holds
+	if mk, ok := resolveVal(v).(*ssa.MakeChan); ok && mk.Parent() != nil {
+		strip := func(x ssa.Value) ssa.Value {
+			x = resolveVal(x)
+			for {
+				if ct, ok := x.(*ssa.ChangeType); ok {
+					x = resolveVal(ct.X)
+					continue
+				}
+				return x
+			}
+		}
+		fields := map[string]bool{}
+		for _, g := range withAnon(mk.Parent()) {
+			instrs(g, func(_ *ssa.BasicBlock, _ int, in ssa.Instruction) {
+				if st, ok := in.(*ssa.Store); ok {
+					if fa, ok := st.Addr.(*ssa.FieldAddr); ok && strip(st.Val) == ssa.Value(mk) {
+						fields[fieldName(fa.X.Type(), fa.Field)] = true
+					}
+				}
+			})
+		}
+		if len(fields) == 1 {
+			for f := range fields {
+				return f
+			}
+		}
+		return ""
+	}
 	// an accessor that hands back (a view of) a channel: `func (l latch) released() <-chan struct{} { return l }`
 	if call, ok := v.(*ssa.Call); ok {
 		if cal := staticCallee(&call.Call); cal != nil && cal.Blocks != nil && cal.Parent() == nil && cal.Signature.Results().Len() == 1 && curCtx != nil && curCtx.inModule(cal) {
